@@ -13,6 +13,7 @@ import (
 	"github.com/orbs-network/lean-helix-go/spec/types/go/primitives"
 
 	"verif/ref"
+	"verif/spi"
 )
 
 // SeedFor derives the PRNG seed of one case from (VERIF_SEED, workload name, case index).
@@ -49,6 +50,9 @@ type Profile struct {
 func GenConfig(rng *rand.Rand, p *Profile) *CaseConfig {
 	n := p.MinN + rng.Intn(p.MaxN-p.MinN+1)
 	cfg := &CaseConfig{Committees: map[uint64][]interfaces.CommitteeMember{}, Byz: map[string]bool{}, Outsiders: map[string]bool{}, MaxH: p.MaxH}
+	// the parallel instance that shares the member keys: usually id 8, sometimes a boundary id (0, 2^64-1) or the neighbour of ours
+	cfg.OtherInst = []uint64{8, 8, 8, 0, ^uint64(0), uint64(spi.InstanceId) + 1, uint64(spi.InstanceId) - 1, 0}[rng.Intn(8)]
+	cfg.otherInstZero = cfg.OtherInst == 0
 	ids := make([]string, n)
 	for i := range ids {
 		ids[i] = fmt.Sprintf("nd%02d", i) // four bytes, the first three shared by up to ten members
